@@ -2,6 +2,7 @@ CONSTANTS
   Family = "text"
   Unit = "utf16"
   MaxOps = 3
+  Shape <- NoShape
 SPECIFICATION Spec
 INVARIANTS InvWellFormed InvUniqueTags
 CHECK_DEADLOCK FALSE
